@@ -89,8 +89,6 @@ func Run(p *Prop) {
 }
 
 func worker(p *Prop, shard string) {
-	var k, n int
-	fmt.Sscanf(shard, "%d/%d", &k, &n)
 	budget, _ := strconv.ParseFloat(os.Getenv("MC_BUDGET_S"), 64)
 	deadline := time.Now().Add(time.Duration(budget * float64(time.Second)))
 	out := partial{MinBound: 1 << 30, Ends: map[string]int64{}, Outcomes: map[string]int64{}}
@@ -109,11 +107,11 @@ func worker(p *Prop, shard string) {
 		outMu.Unlock()
 		json.NewEncoder(os.Stdout).Encode(&out)
 	}()
-	scs := p.Scenarios(tier())
+	scs := filter(p.Scenarios(tier()))
 	mine := []*mcrt.Scenario{}
-	for i, sc := range scs {
-		if i%n == k {
-			mine = append(mine, sc)
+	for _, f := range strings.Split(shard, ",") {
+		if i, err := strconv.Atoi(f); err == nil && i >= 0 && i < len(scs) {
+			mine = append(mine, scs[i])
 		}
 	}
 	for i, sc := range mine {
@@ -163,7 +161,7 @@ func coordinate(p *Prop) int {
 	if p.Pre != nil {
 		p.Pre(r)
 	}
-	scs := p.Scenarios(t)
+	scs := filter(p.Scenarios(t))
 	n := runtime.NumCPU()
 	if w, err := strconv.Atoi(os.Getenv("MC_WORKERS")); err == nil && w > 0 {
 		n = w
@@ -178,29 +176,71 @@ func coordinate(p *Prop) int {
 	if b, err := strconv.ParseFloat(os.Getenv("MC_BUDGET_S"), 64); err == nil && b > 0 {
 		budget = time.Duration(b * float64(time.Second))
 	}
-	parts := make([]partial, n)
-	errs := make([]string, n)
+	// dynamic work distribution: batches of consecutive scenario indices are
+	// handed to n worker slots; each batch gets a fair share of the time left
+	batch := len(scs) / (n * 8)
+	if batch < 1 {
+		batch = 1
+	}
+	var batches [][]int
+	for i := 0; i < len(scs); i += batch {
+		var b []int
+		for j := i; j < i+batch && j < len(scs); j++ {
+			b = append(b, j)
+		}
+		batches = append(batches, b)
+	}
+	parts := make([]partial, len(batches))
+	errs := make([]string, len(batches))
+	var qmu sync.Mutex
+	nextBatch := 0
+	doneScen := 0
+	start := time.Now()
 	var wg sync.WaitGroup
 	for k := 0; k < n; k++ {
 		wg.Add(1)
-		go func(k int) {
+		go func() {
 			defer wg.Done()
-			cmd := exec.Command(os.Args[0])
-			cmd.Env = append(os.Environ(), fmt.Sprintf("MC_SHARD=%d/%d", k, n), "MC_TIER="+t,
-				fmt.Sprintf("MC_BUDGET_S=%f", budget.Seconds()), "GOMAXPROCS=2", "GOMEMLIMIT=6GiB")
-			cmd.Stderr = os.Stderr
-			b, err := cmd.Output()
-			if err != nil {
-				errs[k] = fmt.Sprintf("worker %d: %v", k, err)
+			for {
+				qmu.Lock()
+				if nextBatch >= len(batches) {
+					qmu.Unlock()
+					return
+				}
+				bi := nextBatch
+				nextBatch++
+				left := budget - time.Since(start)
+				if left < time.Second {
+					left = time.Second
+				}
+				remaining := len(scs) - doneScen
+				doneScen += len(batches[bi])
+				qmu.Unlock()
+				share := left.Seconds() * float64(n) * float64(len(batches[bi])) / float64(remaining)
+				if share > left.Seconds() {
+					share = left.Seconds()
+				}
+				var idx []string
+				for _, i := range batches[bi] {
+					idx = append(idx, strconv.Itoa(i))
+				}
+				cmd := exec.Command(os.Args[0])
+				cmd.Env = append(os.Environ(), "MC_SHARD="+strings.Join(idx, ","), "MC_TIER="+t,
+					fmt.Sprintf("MC_BUDGET_S=%f", share), "GOMAXPROCS=1", "GOMEMLIMIT=6GiB")
+				cmd.Stderr = os.Stderr
+				b, err := cmd.Output()
+				if err != nil {
+					errs[bi] = fmt.Sprintf("worker for scenarios %s: %v", strings.Join(idx, ","), err)
+				}
+				// the partial result is the last JSON line of the output
+				lines := strings.Split(strings.TrimSpace(string(b)), "\n")
+				if len(lines) == 0 || json.Unmarshal([]byte(lines[len(lines)-1]), &parts[bi]) != nil {
+					errs[bi] += fmt.Sprintf(" worker for scenarios %s: no result (output %q)", strings.Join(idx, ","), truncate(string(b), 300))
+				} else if err != nil && parts[bi].Failure == "" {
+					errs[bi] = ""
+				}
 			}
-			// the partial result is the last JSON line of the output
-			lines := strings.Split(strings.TrimSpace(string(b)), "\n")
-			if len(lines) == 0 || json.Unmarshal([]byte(lines[len(lines)-1]), &parts[k]) != nil {
-				errs[k] += fmt.Sprintf(" worker %d: no result (output %q)", k, truncate(string(b), 300))
-			} else if err != nil && parts[k].Failure == "" {
-				errs[k] = ""
-			}
-		}(k)
+		}()
 	}
 	wg.Wait()
 	machinery := []string{}
@@ -333,4 +373,19 @@ func replay(p *Prop, path string) int {
 	}
 	fmt.Fprintf(os.Stderr, "scenario %q not found\n", doc.Case.Scenario)
 	return 2
+}
+
+// filter keeps the scenarios whose name contains $MC_ONLY (debugging aid).
+func filter(scs []*mcrt.Scenario) []*mcrt.Scenario {
+	only := os.Getenv("MC_ONLY")
+	if only == "" {
+		return scs
+	}
+	var out []*mcrt.Scenario
+	for _, sc := range scs {
+		if strings.Contains(sc.Name, only) {
+			out = append(out, sc)
+		}
+	}
+	return out
 }
